@@ -173,9 +173,11 @@ WRAP:
 			added = true
 			t = t.Truncate(time.Minute)
 		}
+		hour := t.Hour()
 		t = t.Add(1 * time.Minute)
 
-		if t.Minute() == 0 {
+		// A new hour has begun (not necessarily at minute 0: a DST change of a fraction of an hour can skip it)
+		if t.Minute() == 0 || t.Hour() != hour {
 			goto WRAP
 		}
 	}
